@@ -22,7 +22,7 @@ CHECKS = {
     'C02': (['Solver', 'Solver_Trace'],
             'TLA+ spec Solver.tla (per-period control structure: sweeps, error class, cap, raise/append/decorate) model-checked '
             'by TLC; TLC-generated control behaviours realised as real equation blocks, plus seeded random systems with known '
-            'Lipschitz bound; per-period events of the real EquationSolver validated by TLC against Solver_Trace.tla',
+            'Lipschitz bound; per-period events of the real EquationSolver validated by TLC against Solver_Trace.tla; whole solves with the initial-steady-state option on validated the same way at the tolerance the block states',
             'TLC enumerates every outcome sequence (converge / not yet / overflow / transient or persistent evaluation error) '
             'within Cap and Horizon bounds with C02_SolvedOnlyIfConverged; each is realised on the real solver; on every returned '
             'solve the residual / decorative / lagged / exogenous predicates (exact Fractions from the reported floats) must hold.',
@@ -48,7 +48,7 @@ CHECKS = {
     'C06': (['Sector', 'Sector_Trace'],
             'TLA+ spec Sector.tla (variable definitions, F / INC ledgers as coefficient bags, exclusions, registration log) '
             'model-checked by TLC; every TLC-generated history replayed on a real Sector inside a real Model with the ledgers '
-            'evaluated on two integer valuations after every call; traces validated by TLC against Sector_Trace.tla',
+            'evaluated on two integer valuations after every call; declare-then-pay histories also stated through Model.RegisterCashFlow + main(); traces validated by TLC against Sector_Trace.tla',
             'All histories (<=3 quick, <=4 thorough) of AddVariable / AddCashFlow / Exclude / SetRHS over the bounded alphabet are '
             'enumerated by TLC with C06_F, C06_INC, C06_DefineOnce stated over the registration history; each is executed on the '
             'real classes and judged call by call.',
